@@ -97,8 +97,23 @@ fn basis_event(key: &str, k: usize, t: &Vec<f64>, xs: &[f64]) -> Value {
             }
         }
     }
+    // the Python-facing FREE functions `bsplev_single` / `bspldnev_single`: every basis index (the last one included), every
+    // derivative order, a third of the points - each must be the core function's own value, or an error where that panics
+    let mut pyfree = vec![];
+    for i in 0..n {
+        for (q, x) in xs.iter().enumerate().filter(|(q, _)| q % 3 == 1 || *q + 1 == xs.len()) {
+            for m in 0..=(k + 1) {
+                let r = if m == 0 && q % 2 == 0 { guard(|| spy::py_bsplev_single(*x, i, k, t.clone())) } else { guard(|| spy::py_bspldnev_single(*x, i, k, t.clone(), m)) };
+                match r {
+                    Outcome::Ok(Ok(v)) => pyfree.push(json!({"i": i, "m": m, "q": q + 1, "o": "ok", "v": fj(v)})),
+                    Outcome::Ok(Err(c)) => pyfree.push(json!({"i": i, "m": m, "q": q + 1, "o": c, "v": fj(0.0)})),
+                    Outcome::Panic(_) => pyfree.push(json!({"i": i, "m": m, "q": q + 1, "o": "panic", "v": fj(0.0)})),
+                }
+            }
+        }
+    }
     json!({"key": key, "op": "basis", "k": k, "t": fvec(t), "xs": fvec(xs), "vals": vals, "m0_via_deriv": via_d, "dvals": dvals, "vec_rev": vec_rev,
-           "sites": fvec(&sites), "matrix": matrix, "pyvals": pyvals, "o": o})
+           "sites": fvec(&sites), "matrix": matrix, "pyvals": pyvals, "pyfree": pyfree, "o": o})
 }
 
 /// TLC-generated knot vectors (MC_BSpline.CaseSeq): k, t (integers as doubles), nx quarter points
@@ -452,11 +467,169 @@ pub fn solve(seed: u64, n: usize, out: &str) {
     eprintln!("spline solve: {} events", o.finish());
 }
 
+// ------------------------------------------------------------------------------------------ the life of one spline object
+/// Runs every TLC-generated history (Gen_SplineLife: sequences of solve / refused solve / evaluate / copy / store-and-load
+/// calls) on a real spline object - the core `PPSpline<T>` or the Python-facing class - and records, after every call, the
+/// outcome and the coefficients the object then holds, next to the coefficients FRESH objects get from the same data.
+pub fn life(cases: &str, out: &str) {
+    let mut o = Out::create(out);
+    let wd = Watchdog::start(out, 60);
+    for (hi, case) in read_ndjson(cases).iter().enumerate() {
+        let kind = ["F", "D1", "F", "D2", "F"][hi % 5];
+        let via = if (hi / 5) % 2 == 0 { "core" } else { "py" };
+        let (k, t): (usize, Vec<f64>) = match hi % 3 {
+            0 => (3, vec![0.0, 0.0, 0.0, 1.0, 2.5, 4.0, 4.0, 4.0]),
+            1 => (4, vec![-1.0, -1.0, -1.0, -1.0, 0.5, 1.0, 3.0, 3.0, 3.0, 3.0]),
+            _ => (2, vec![0.0, 0.0, 1.0, 1.75, 3.0, 3.0]),
+        };
+        let n = t.len() - k;
+        let tau_e = greville(&t, k);
+        let mut tau_l = vec![];
+        for w in 0..tau_e.len() {
+            tau_l.push(tau_e[w]);
+            if w + 1 < tau_e.len() { tau_l.push(0.5 * (tau_e[w] + tau_e[w + 1])); }
+        }
+        let yval = |d: usize, j: usize| -> f64 { ((j * 7 + d * 3) % 11) as f64 * 0.37 - 1.5 + 0.01 * d as f64 };
+        let xs = [0.5 * (t[0] + t[t.len() - 1]), t[k] - 0.25];
+        let key = format!("spline/life/{}/{}/{}", kind, via, hi);
+        wd.enter(&key);
+        macro_rules! go {
+            ($T:ty, $mk:expr, $wrap:expr, $Py:ty, $pnew:path, $pcsolve:path, $peval:path, $pcoef:path, $pmisc:path) => {{
+                let data = |d: usize, m: usize| -> Vec<$T> { (0..m).map(|j| $mk(yval(d, j), j)).collect() };
+                // what fresh objects get: coefficients and values per (data set, mode)
+                let mut refs = serde_json::Map::new();
+                for d in 1..=2usize {
+                    for mode in ["exact", "lsq"] {
+                        let tau = if mode == "exact" { &tau_e } else { &tau_l };
+                        let mut sp: PPSpline<$T> = PPSpline::new(k, t.clone(), None);
+                        let r = guard(|| sp.csolve(tau, &data(d, tau.len()), 0, 0, mode == "lsq").map_err(|e| e.to_string()));
+                        let v = match r {
+                            Outcome::Ok(Ok(())) => {
+                                let c: Vec<Number> = sp.c().as_ref().unwrap().iter().map(|v| $wrap(v.clone())).collect();
+                                let mut ev = vec![];
+                                for x in xs.iter() { for m in 0..=1usize {
+                                    ev.push(match guard(|| sp.ppdnev_single(x, m).map($wrap).map_err(|e| e.to_string())) { Outcome::Ok(Ok(v)) => number_json(&v), _ => json!({"k": "dead"}) });
+                                } }
+                                json!({"o": "ok", "c": numvec(&c), "ev": ev})
+                            }
+                            _ => json!({"o": "fail"}),
+                        };
+                        refs.insert(format!("{}{}", d, mode), v);
+                    }
+                }
+                let mut core: PPSpline<$T> = PPSpline::new(k, t.clone(), None);
+                let mut py: $Py = $pnew(k, t.clone(), None);
+                let mut steps = vec![];
+                for op in case["ops"].as_array().unwrap() {
+                    let name = op["op"].as_str().unwrap();
+                    let mut st = json!({});
+                    let call = |core: &mut PPSpline<$T>, py: &mut $Py, tau: &[f64], y: Vec<$T>, lsq: bool| -> &'static str {
+                        let r = if via == "core" { guard(|| core.csolve(tau, &y, 0, 0, lsq).map_err(|e| e.to_string())) }
+                                else { guard(|| $pcsolve(py, tau.to_vec(), y.clone(), 0, 0, lsq)) };
+                        match r { Outcome::Ok(Ok(())) => "ok", Outcome::Ok(Err(_)) => "err", Outcome::Panic(_) => "panic" }
+                    };
+                    match name {
+                        "solve" => {
+                            let d = op["d"].as_u64().unwrap() as usize;
+                            let lsq = op["mode"] == "lsq";
+                            let tau = if lsq { &tau_l } else { &tau_e };
+                            st["o"] = json!(call(&mut core, &mut py, tau, data(d, tau.len()), lsq));
+                        }
+                        "bad" => {
+                            let (tau, ylen, lsq): (Vec<f64>, usize, bool) = match op["why"].as_str().unwrap() {
+                                "few" => (tau_e[..n - 1].to_vec(), n - 1, false),
+                                "few_lsq" => (tau_e[..n - 1].to_vec(), n - 1, true),
+                                "many" => (tau_l.clone(), tau_l.len(), false),
+                                "ylen" => (tau_e.clone(), n - 1, false),
+                                _ => (tau_l.clone(), tau_l.len() - 1, true),
+                            };
+                            st["o"] = json!(call(&mut core, &mut py, &tau, data(1, ylen), lsq));
+                        }
+                        "eval" => {
+                            let mut ev = vec![];
+                            let mut outs = std::collections::BTreeSet::new();
+                            for x in xs.iter() { for m in 0..=1usize {
+                                let r = if via == "core" { guard(|| core.ppdnev_single(x, m).map($wrap).map_err(|e| e.to_string())) }
+                                        else { guard(|| $peval(&py, "ppdnev_single", Number::F64(*x), m)) };
+                                match r {
+                                    Outcome::Ok(Ok(v)) => { outs.insert("ok"); ev.push(number_json(&v)); }
+                                    Outcome::Ok(Err(_)) => { outs.insert("err"); ev.push(json!({"k": "dead"})); }
+                                    Outcome::Panic(_) => { outs.insert("panic"); ev.push(json!({"k": "dead"})); }
+                                }
+                            } }
+                            st["o"] = json!(if outs.len() == 1 { *outs.iter().next().unwrap() } else { "mixed" });
+                            st["ev"] = Value::Array(ev);
+                        }
+                        "copy" => {
+                            if via == "core" {
+                                match guard(|| { let cl = core.clone(); let e = cl == core; (cl, e) }) {
+                                    Outcome::Ok((cl, e)) => { core = cl; st["o"] = json!("ok"); st["eq"] = json!(e); }
+                                    Outcome::Panic(_) => { st["o"] = json!("panic"); }
+                                }
+                            } else {
+                                match guard(|| $pmisc(&py)) {
+                                    Outcome::Ok(Ok((e, _))) => { st["o"] = json!("ok"); st["eq"] = json!(e); }
+                                    Outcome::Ok(Err(_)) => { st["o"] = json!("err"); }
+                                    Outcome::Panic(_) => { st["o"] = json!("panic"); }
+                                }
+                            }
+                        }
+                        _ => {
+                            // a document written and read back; the object read back carries on
+                            if via == "core" {
+                                match guard(|| -> Result<(PPSpline<$T>, bool), String> {
+                                    let doc = serde_json::to_string(&core).map_err(|e| e.to_string())?;
+                                    let back: PPSpline<$T> = serde_json::from_str(&doc).map_err(|e| e.to_string())?;
+                                    let e = back == core;
+                                    Ok((back, e))
+                                }) {
+                                    Outcome::Ok(Ok((b, e))) => { core = b; st["o"] = json!("ok"); st["eq"] = json!(e); }
+                                    Outcome::Ok(Err(_)) => { st["o"] = json!("err"); }
+                                    Outcome::Panic(_) => { st["o"] = json!("panic"); }
+                                }
+                            } else {
+                                match guard(|| -> Result<($Py, bool), String> {
+                                    let doc = serde_json::to_string(&py).map_err(|e| e.to_string())?;
+                                    let back: $Py = serde_json::from_str(&doc).map_err(|e| e.to_string())?;
+                                    let e = back == py;
+                                    Ok((back, e))
+                                }) {
+                                    Outcome::Ok(Ok((b, e))) => { py = b; st["o"] = json!("ok"); st["eq"] = json!(e); }
+                                    Outcome::Ok(Err(_)) => { st["o"] = json!("err"); }
+                                    Outcome::Panic(_) => { st["o"] = json!("panic"); }
+                                }
+                            }
+                        }
+                    }
+                    // the coefficients the object holds now
+                    let held: Option<Vec<Number>> = if via == "core" { core.c().as_ref().map(|c| c.iter().map(|v| $wrap(v.clone())).collect()) }
+                                                    else { match guard(|| $pcoef(&py)) { Outcome::Ok(Ok((_, _, _, pc))) => pc, _ => Some(vec![]) } };
+                    st["has"] = json!(held.is_some());
+                    st["c"] = match held { Some(c) => numvec(&c), None => json!([]) };
+                    steps.push(st);
+                }
+                json!({"key": key, "op": "life", "kind": kind, "via": via, "k": k, "n": n, "ops": case["ops"], "steps": steps, "refs": Value::Object(refs)})
+            }};
+        }
+        // (only the first two data carry a variable: keeps the second-order records small)
+        let tag = |j: usize| if j < 2 { vec![format!("y{}", j)] } else { vec![] };
+        let v = match kind {
+            "F" => go!(f64, |v: f64, _j: usize| v, Number::F64, rateslib::splines::PPSplineF64, spy::f64_new, spy::f64_csolve, spy::f64_eval, spy::f64_coef, spy::f64_misc),
+            "D1" => go!(Dual, |v: f64, j: usize| Dual::new(v, tag(j)), Number::Dual, rateslib::splines::PPSplineDual, spy::dual_new, spy::dual_csolve, spy::dual_eval, spy::dual_coef, spy::dual_misc),
+            _ => go!(Dual2, |v: f64, j: usize| Dual2::new(v, tag(j)), Number::Dual2, rateslib::splines::PPSplineDual2, spy::dual2_new, spy::dual2_csolve, spy::dual2_eval, spy::dual2_coef, spy::dual2_misc),
+        };
+        wd.leave();
+        o.emit(&v);
+    }
+    eprintln!("spline life: {} events", o.finish());
+}
+
 pub fn main(args: &[String]) {
     let out = arg_val(args, "--out").unwrap_or_default();
     match args[0].as_str() {
         "basis" => basis(&args[1], &out),
         "basis-random" => basis_random(arg_u64(args, "--seed", 1), arg_u64(args, "--n", 100) as usize, &out),
+        "life" => life(&args[1], &out),
         "solve" => solve(arg_u64(args, "--seed", 1), arg_u64(args, "--n", 100) as usize, &out),
         _ => panic!("unknown spline subcommand"),
     }
